@@ -73,6 +73,14 @@ func (s *checkpoint) Save() {
 	s.stream.UnmarkDirtyOffsets()
 	offsets, _, _ := s.stream.GetOffsets()
 
+	if offsets.Count() == 0 {
+		// the stream was closed meanwhile (rebalance, shutdown) and has dropped its offsets: there is
+		// nothing to dump, and an empty dump makes a store that writes the whole state (file) forget
+		// every checkpoint it holds
+		logger.Log.Debug("stream closed while saving checkpoint, nothing to save")
+		return
+	}
+
 	checkpointDump := map[uint16]*models.CheckpointDocument{}
 
 	offsets.Range(func(vbID uint16, offset *models.Offset) bool {
